@@ -345,7 +345,9 @@ pub fn c10(opts: &Opts, out: &mut Out) {
             } else {
                 None
             };
-            let seeds: Vec<(&str, Option<Scalar>)> = vec![("same", Some(seed)), ("none", None), ("plus-one", Some(seed + Scalar::ONE)), ("zero", Some(Scalar::ZERO)), ("random", Some(Scalar::random(&mut rng)))];
+            let seeds: Vec<(&str, Option<Scalar>)> = vec![("same", Some(seed)), ("none", None), ("plus-one", Some(seed + Scalar::ONE)), ("zero", Some(Scalar::ZERO)), ("random", Some(Scalar::random(&mut rng))),
+                // seeds that coincide with something else in the triple: a response scalar of the proof, the mask itself
+                ("proof-r1", Some(fmx::parts(&proof).r1)), ("proof-s1", Some(fmx::parts(&proof).s1)), ("proof-d1", Some(fmx::parts(&proof).d1[0])), ("mask-0", Some(inst.blindings[0][0])), ("minus-seed", Some(-seed))];
             for (pname, p, valid) in [("valid", Some(proof.clone()), true), ("invalid", invalid, false)] {
                 let Some(p) = p else { continue };
                 let mut verdicts = vec![];
